@@ -13,7 +13,7 @@ All theorems are about the model Ymq/Model/Gf2Small.lean (tied to the code by th
 -/
 import Ymq.Lemmas.Gf2SmallCallsite
 import Ymq.Lemmas.Gf2SmallInverse
-import Ymq.Lemmas.Gf2SmallThreeTerm
+import Ymq.Lemmas.Gf2SmallVRun
 import Ymq.Model.Gf2Genblock
 import Ymq.Props.C14
 
@@ -413,12 +413,9 @@ longer projected — purged earlier, or consumed now, `mask == 0` — are A-orth
 `debug_assert!` of the loop holds — `ws[j]·av == 0` at a purge, `(A·W_j)ᵗ·next == 0` after each
 projection, `ginv.rank() == (rk, mask)`, `W·A·Y == 0` — and the invariant holds again for the new state
 with the new block appended to the history.
-MISSING for `lanczos_loop_no_panic` (named): the three-term property `h3` as a consequence of the
-invariant (Montgomery's argument: `A·W_j ∈ span(V_{j+1}, V_j, W_l (l ≤ j))` and the unselected vectors of
-`V_j` are selected later, which is what `mask == 0` expresses); it needs `V_j` in the ghost history;
-(the base case is `lanczos_init_invariant`).
-The K stream runs the checked model on every iteration of real runs (no panic), and the oracle checks
-`W_iᵗ A W_j = 0` pairwise on the recorded blocks. -/
+The three-term property `h3` is a consequence of the extended invariant
+(`lanczos_three_term_of_extended_invariant`); the unconditional loop-level statement is
+`lanczos_loop_no_panic`. -/
 theorem lanczos_step_no_panic_checked (k : Nat) (cols : List (List Nat)) (Y0 ay : List Nat) (st : LState)
     (hist : List (List Nat)) (Ss : List Nat) (hM : MatOK k cols)
     (hay : Ymq.Gf2Genblock.mulAabOpt (qsOptimize k cols) Y0 = some ay) (hayOK : BlockOK cols.length ay)
@@ -498,19 +495,50 @@ A-orthogonal to `W_0…W_{i-1}`" (`dd`, with `pc Ss m t = !S_m & … & !S_{t-1}`
 condition `mask == 0`). Under `LInv` and `VInv` the hypothesis `h3` of `lanczos_step_no_panic_checked`
 holds: every block no longer projected is A-orthogonal to the direction `A·W_i ^ V_i`; hence the checked
 step reaches no panic site (`lanczosStep_checked_of_VInv`).
-MISSING for the unconditional `lanczos_loop_no_panic` (checked profile beyond the first purge): that
-`lanczosStep` PRESERVES `VInv` (and its trivial base case). Exactly: (1) expose from the projection loop
-"`Q X next = Q X next0` for every `X` A-orthogonal to the whole history" (each projection adds `W_l·c`) —
-gives `recur` for `j = i` and `vOrth`; (2) `dd` for `i+1` from `dd` for `i` and the column identity
-`Q X V_{i+1}·(1 - P_{S_i}) = Q X V_i·(1 - P_{S_i})` (because `(A·W_i)·(1 - P_{S_i}) = 0`), with
-`pc Ss m (i+1) = pc Ss m i & !S_i`; (3) `maskFor masks j L = some (pc Ss (j+1) (L-1))` from
-`masks[l] = !S_l`, and "purged ⇒ `mask == 0` at purge time" recorded by the projection loop — gives `notProj`. -/
+A step preserves `VInv` (`VInv_step`, base case `lanczosInit_vinv`): see `lanczos_loop_no_panic`. -/
 theorem lanczos_three_term_of_extended_invariant (k : Nat) (cols : List (List Nat)) (Y0 : List Nat) (st : LState)
     (hist vhist : List (List Nat)) (Ss : List Nat) (hM : MatOK k cols) (hInv : LInv k cols Y0 st hist Ss)
     (hV : VInv k cols st hist vhist Ss) :
     ∀ next0, Direction k cols st next0 → ∀ j, j < st.ws.length →
       ¬ Projected st.ws st.masks st.ws.length j → Q k cols (hist.getD j []) next0 = 0 :=
   three_term_of_VInv hM hInv hV
+
+open Ymq.Gf2Lanczos Ymq.Gf2 in
+/-- LOOP LEVEL, CHECKED profile, unconditional: from the block `Y0` of `genblock` (one 64-bit word per
+column) on a well-formed matrix with at least one column, when the initial computation returns, the
+main loop with fuel reaches NO panic site: if `lanczosLoop true` answers `none` it ran out of fuel after
+`fuel` iterations that all continued. In particular every `debug_assert!` of every iteration — the
+purge assertion `ws[j]·av == 0`, `(A·W_j)ᵗ·next == 0` after each projection, `ginv.rank() == (rk, mask)`,
+`W·A·Y == 0` — and the assertions after the loop hold. (Induction over the loop with the invariants
+`LInv` and `VInv`: base `lanczos_init_invariant` / `lanczosInit_vinv`, step
+`lanczos_step_no_panic_checked` with Montgomery's three-term property
+`lanczos_three_term_of_extended_invariant`, preservation `VInv_step`.) -/
+theorem lanczos_loop_no_panic (k : Nat) (cols : List (List Nat)) (Y0 ay : List Nat) (st : LState)
+    (fuel : Nat) (acc : List (Nat × List Nat × List Nat)) (hM : MatOK k cols) (hn0 : 0 < cols.length)
+    (hY0 : BlockOK cols.length Y0) (h : lanczosInit true (qsOptimize k cols) Y0 = some (st, ay))
+    (hnone : lanczosLoop true (qsOptimize k cols) ay fuel st acc = none) :
+    ∃ st', IterN true (qsOptimize k cols) ay fuel st st' := by
+  obtain ⟨hay, hInv⟩ := lanczosInit_inv hM true hY0 h
+  exact lanczosLoop_checked hM hn0 hay (lanczosInit_wf hM true hY0 h).2 fuel st _ _ _ acc hInv
+    (lanczosInit_vinv hM hn0 true hY0 h) hnone
+
+open Ymq.Gf2Lanczos Ymq.Gf2 in
+/-- every state reached by a checked run satisfies the classical invariant (`lanczos_invariant`:
+pairwise A-orthogonality of all selected blocks, two-sided inverses of the Gram blocks on their masks, `Y`
+A-orthogonal to every selected block) and its next iteration does not panic: all assertions hold -/
+theorem lanczos_checked_assertions_hold (k : Nat) (cols : List (List Nat)) (Y0 ay : List Nat) (st st' : LState)
+    (n : Nat) (hM : MatOK k cols) (hn0 : 0 < cols.length) (hY0 : BlockOK cols.length Y0)
+    (h : lanczosInit true (qsOptimize k cols) Y0 = some (st, ay))
+    (hit : IterN true (qsOptimize k cols) ay n st st') :
+    (∃ hist Ss, LInv k cols Y0 st' hist Ss) ∧ lanczosStep true (qsOptimize k cols) ay st' ≠ .panic := by
+  obtain ⟨hay, hInv⟩ := lanczosInit_inv hM true hY0 h
+  have hayOK := (lanczosInit_wf hM true hY0 h).2
+  obtain ⟨hist', vhist', Ss', hI, hV⟩ := IterN_inv hM hn0 hay hayOK hit _ _ _ hInv
+    (lanczosInit_vinv hM hn0 true hY0 h)
+  refine ⟨⟨hist', Ss', hI⟩, ?_⟩
+  rcases lanczosStep_checked_of_VInv hM hay hayOK hI hV with ⟨s1, hs, _, _⟩ | ⟨s1, mk, w, hs, _, _⟩
+  · rw [hs]; exact fun hh => by cases hh
+  · rw [hs]; exact fun hh => by cases hh
 
 /-! ### `kernel_lanczos` as one statement: initial block + main loop + final stage -/
 
